@@ -61,11 +61,11 @@ def run_case(case, note):
     data = case['data']
     if case['shipped']:
         strings = shipped_strings(case['shipped'])
-        lines = guard('C15.decode', trace().parse_trace_data, memoryview(data), D.shipped(case['shipped']))
+        lines = guard('C15.decode', trace().parse_trace_data, D.view(data), D.shipped(case['shipped']))
     else:
         strings = case['strings'] or []
         with D.TempFile(D.render_string_file(strings), '') as path:
-            lines = guard('C15.decode', trace().parse_trace_data, memoryview(data), path)
+            lines = guard('C15.decode', trace().parse_trace_data, D.view(data), path)
     mode, n = D.compare_trace_output(lines, data, strings, oracle='C15')
     note.label(mode, 'entries=%s' % (n if n < 3 else '3+'))
     return mode, n, strings
@@ -122,5 +122,5 @@ def coverage_guided(ctx):
 
 def replay_coverage_guided(case):
     data = case['data']
-    lines = guard('C15.decode', trace().parse_trace_data, memoryview(data), D.shipped('mexStringFile'))
+    lines = guard('C15.decode', trace().parse_trace_data, D.view(data), D.shipped('mexStringFile'))
     D.compare_trace_output(lines, data, shipped_strings('mexStringFile'), oracle='C15')
